@@ -334,7 +334,18 @@ func (s *Solver) CheckWith(st *Store, extra *Term) Result {
 // CheckWithFallback is CheckWith for final obligations: an `unknown` from the primary solver is re-decided from scratch
 // by the other installed solvers (one-shot processes on the mirrored assertion stack).
 func (s *Solver) CheckWithFallback(st *Store, extra *Term, timeoutMs int) Result {
+	// portfolio: a short attempt with the primary (bit-blasting) solver, then cvc5's exact integer encoding of bit-vectors
+	// (decides linear arithmetic over bounded words in milliseconds where bit-blasting does not finish), then the primary with
+	// the full budget, then the remaining solvers
+	const quickMs = 3000
+	staged := timeoutMs > quickMs && strings.HasPrefix(s.Kind, "z3")
+	if staged {
+		s.SetTimeout(quickMs)
+	}
 	res := s.CheckWith(st, extra)
+	if staged {
+		s.SetTimeout(timeoutMs)
+	}
 	if res != Unknown {
 		return res
 	}
@@ -360,7 +371,22 @@ func (s *Solver) CheckWithFallback(st *Store, extra *Term, timeoutMs int) Result
 	if s.Kind == "z3" {
 		first[0] = "z3-new"
 	}
-	for _, alt := range [][]string{first, {"cvc5", "--lang=smt2", fmt.Sprintf("--tlimit=%d", timeoutMs), f.Name()}} {
+	intMs := timeoutMs
+	if intMs > 20000 {
+		intMs = 20000
+	}
+	alts := [][]string{{"cvc5", "--lang=smt2", "--solve-bv-as-int=sum", fmt.Sprintf("--tlimit=%d", intMs), f.Name()}}
+	if staged {
+		alts = append(alts, nil) // nil = the primary again, full budget
+	}
+	alts = append(alts, first, []string{"cvc5", "--lang=smt2", fmt.Sprintf("--tlimit=%d", timeoutMs), f.Name()})
+	for _, alt := range alts {
+		if alt == nil {
+			if res := s.CheckWith(st, extra); res != Unknown {
+				return res
+			}
+			continue
+		}
 		out, _ := exec.Command(alt[0], alt[1:]...).Output()
 		txt := string(out)
 		if strings.Contains(txt, "(error") {
